@@ -12,3 +12,43 @@ package protocol
 //@ pureiface VersionData.NetworkMagic VersionData.DiffusionMode VersionData.PeerSharing VersionData.Query
 // The per-version decoders stored in the version tables only decode their argument.
 //@ purefunc NewVersionDataFromCborFunc
+
+// C11: which messages the state machine admits. The successor state is the NewState of the first
+// transition of the current state whose message type equals the message's and whose match predicate
+// (if any) accepted it; earlier transitions of the same type are passed over only when they carry a
+// predicate; a message type that no transition of the current state lists is an error.
+//@ pureiface Message.Type
+//@ purefunc MatchFunc
+//@ func (p *Protocol) nextState(currentState, msg) (r, err)
+//@   props C11
+//@   attr trackcalls on
+//@   requires nonnil: p != nil && msg != nil
+//@   let T = mapval(p.config.StateMap, currentState.Id, currentState.Name).Transitions
+//@   ensures admitted: err == nil ==> exists i int :: 0 <= i && i < len(T) && T[i].MsgType == msg.Type() &&
+//@       r.Id == T[i].NewState.Id && r.Name == T[i].NewState.Name
+//@   ensures first: err == nil ==> exists i int :: 0 <= i && i < len(T) && T[i].MsgType == msg.Type() && r.Id == T[i].NewState.Id &&
+//@       forall j int :: 0 <= j && j < i ==> T[j].MsgType != msg.Type() || T[j].MatchFunc != nil
+//@   ensures consulted: err == nil && !(called(MatchFunc) && callres(MatchFunc)) ==>
+//@       exists i int :: 0 <= i && i < len(T) && T[i].MsgType == msg.Type() && T[i].MatchFunc == nil && r.Id == T[i].NewState.Id && r.Name == T[i].NewState.Name
+//@   ensures rejected: (forall i int :: 0 <= i && i < len(T) ==> T[i].MsgType != msg.Type()) ==> err != nil
+//@   ensures unconditional: (exists i int :: 0 <= i && i < len(T) && T[i].MsgType == msg.Type() && T[i].MatchFunc == nil) ==> err == nil
+//@   loop 0 invariant rangeindex < len(T) && forall j int :: 0 <= j && j <= rangeindex ==> T[j].MsgType != msg.Type() || T[j].MatchFunc != nil
+
+// C11: a received message is handed to the application's handler only after the state machine
+// accepted it: transitionState was called for this very message and returned nil.
+//@ func (p *Protocol) handleMessage(msg) (err)
+//@   props C11
+//@   attr trackcalls on
+//@   attr safe off
+//@   callback MessageHandlerFunc requires accepted: called(transitionState) && callres(transitionState) == nil && callarg(transitionState, 1) == msg && arg0 == msg
+//@   ensures rejected: called(transitionState) && callres(transitionState) != nil ==> err != nil && !called(MessageHandlerFunc)
+
+// C11: the receive loop takes a message off the queue and handles it only after it received the
+// "peer has agency" signal in the same iteration (one signal per message: the token is consumed by
+// the handling), and an error from the handling ends the loop - the next message is never handled.
+//@ func (p *Protocol) recvLoop()
+//@   props C11
+//@   attr trackcalls on
+//@   attr safe off
+//@   token ready acquire recv:recvReadyChan consume call:handleMessage
+//@   loop 0 invariant !holds(ready)
